@@ -110,11 +110,17 @@ def find_block(src, header):
     for m in re.finditer(r'(?m)^[ \t]*((?:pub(?:\([^)]*\))?\s+)?(?:unsafe\s+)?' + first + r')\b', src):
         s = m.start(1)
         brace = None
+        angle = 0     # `{` inside generic arguments (const generics: `Trait<{ EXPR }>`) does not open the block
         for p in _code_positions(src, s, len(src)):
-            if src[p] == '{':
+            ch = src[p]
+            if ch == '<':
+                angle += 1
+            elif ch == '>' and not (p > 0 and src[p - 1] == '-') and angle > 0:
+                angle -= 1
+            if ch == '{' and angle == 0:
                 brace = p
                 break
-            if src[p] == ';':
+            if ch == ';' and angle == 0:
                 break
         if brace is None:
             continue
